@@ -232,8 +232,12 @@ def c11_5(ctx):
 
     def head_reachable(blocked):
         return lp.head in cfg.reach(starts, blocked=set(blocked), within=body)
-    if not total or not spend or not change:
-        raise AnalysisError("accumulators total/spend/change not found (%d/%d/%d)" % (len(total), len(spend), len(change)))
+    declared = {n.id for st in fn.body if isinstance(st, ast.Assign) for t in st.targets for n in ast.walk(t) if isinstance(n, ast.Name)}
+    if not {"total_sats", "spend_sats", "change_sats"} <= declared:
+        raise AnalysisError("accumulators total_sats / spend_sats / change_sats not found")
+    missing = [nm for nm, lst in (("total_sats", total), ("spend_sats", spend), ("change_sats", change)) if not lst]
+    if missing:
+        return [ctx.bad(spec, "%s is initialised and reported in the summary but no output amount is ever added to it" % ", ".join(missing), lp.stmt, mod, key="accumulate:" + missing[0])]
     if head_reachable([n.id for n in total]):
         out.append(ctx.bad(spec, "an iteration can complete without adding the output amount to total_sats", total[0].ast, mod, key="total-always"))
     else:
